@@ -71,13 +71,14 @@ Record ovf_file (V : Type) := mkFile {
   f_rep : repr;
   f_check : option Q;                  (* binary only *)
   f_payload : list V;
+  f_cols : nat;                        (* text only: values per data line *)
   f_tail_ok : bool                     (* what follows nodes*valuedim values is (a prefix of) "# End: Data" *)
 }.
 Arguments mkFile {V}.
 Arguments f_v2 {V}. Arguments f_meshunit {V}. Arguments f_base {V}. Arguments f_nodes {V}.
 Arguments f_step {V}. Arguments f_min {V}. Arguments f_max {V}. Arguments f_valuedim {V}.
 Arguments f_labels {V}. Arguments f_units {V}. Arguments f_rep {V}. Arguments f_check {V}.
-Arguments f_payload {V}. Arguments f_tail_ok {V}.
+Arguments f_payload {V}. Arguments f_cols {V}. Arguments f_tail_ok {V}.
 
 (* side-car: name -> (pmin, pmax) in insertion order *)
 Notation sidecar := (list (string * (list Q * list Q))).
@@ -192,7 +193,8 @@ Section Codec.
                    (Some (Z.of_nat write_dim)) (Some labels)
                    (Some (repeat (unit_token (of_unit f)) write_dim))
                    rp (match rp with RTxt => None | _ => Some (check_value rp) end)
-                   (map (wr rp) payload) true,
+                   (map (wr rp) payload)
+                   (if extend then (if (nv =? 0)%nat then 2 else nv + 2)%nat else nv) true,
             if save_sub && negb (length (subs m) =? 0)%nat then Some (sidecar_of m) else None)
     end.
 
@@ -209,7 +211,7 @@ Section Codec.
     let count := (nodes * vd)%nat in
     do data <-
       match f_rep fl with
-      | RTxt => OK (firstn count (f_payload fl))
+      | RTxt => OK (firstn (nodes * f_cols fl) (f_payload fl))   (* read_csv(nrows=nodes) *)
       | rp =>
           match f_check fl with
           | None => Err ValueE
